@@ -23,6 +23,20 @@ def run(prop, path):
             reproduced = all(o and o["panicked"] for o in outs.values())
         elif flag:
             reproduced = all(o and (o["flags"].get(flag) or (flag == "bad_held" and o["panicked"])) for o in outs.values())
+    elif kind == "opt-prefix":
+        import optreplay
+        reproduced = True
+        for prof in ("debug", "release"):
+            oa, _ = optreplay.run_native(r["rep"], prof)
+            on, _ = optreplay.run_native(r["rep_without"], prof)
+            fd = None
+            if oa and on:
+                for t_, (x_, y_) in enumerate(zip(oa["vecs"], on["vecs"])):
+                    if x_ != y_:
+                        fd = t_
+                        break
+            print(prof, "first differing call:", fd)
+            reproduced = reproduced and fd is not None
     elif kind in ("eval", "eval-order"):
         import mq
         if kind == "eval-order":
